@@ -13,7 +13,9 @@ package main
 import (
 	"bytes"
 	"context"
+	"crypto/sha256"
 	"encoding/json"
+	"errors"
 	"fmt"
 	"runtime/debug"
 	"sort"
@@ -61,15 +63,31 @@ type PreJ struct {
 }
 
 type Scn struct {
-	Kind    string  `json:"kind"`
-	Hash    string  `json:"hash"`
-	Ads     int     `json:"ads"`                // advertisement chain: ranks 1..Ads (Ads = newest)
-	Chunk   int     `json:"chunks"`             // then an entries chain: ranks Ads+1..Ads+Chunk (last = first chunk)
-	Raw     int     `json:"raw,omitempty"`      // then raw-codec leaf blocks: ranks Ads+Chunk+1.. (served by the test server itself)
-	BigRaw  []int   `json:"big_raw,omitempty"`  // then raw-codec blocks of exactly these sizes
-	BigNode []int   `json:"big_node,omitempty"` // then dag-json blocks whose encoding is exactly these sizes
-	Pre     []PreJ  `json:"pre,omitempty"`
-	Syncs   []SyncJ `json:"syncs"`
+	Kind    string `json:"kind"`
+	Hash    string `json:"hash"`
+	Ads     int    `json:"ads"`                // advertisement chain: ranks 1..Ads (Ads = newest)
+	Chunk   int    `json:"chunks"`             // then an entries chain: ranks Ads+1..Ads+Chunk (last = first chunk)
+	Raw     int    `json:"raw,omitempty"`      // then raw-codec leaf blocks: ranks Ads+Chunk+1.. (served by the test server itself)
+	BigRaw  []int  `json:"big_raw,omitempty"`  // then raw-codec blocks of exactly these sizes
+	BigNode []int  `json:"big_node,omitempty"` // then dag-json blocks whose encoding is exactly these sizes
+	// then, per entry, a FORGED block: an advertisement body B (PreviousID = the newest genuine
+	// ad) announced under a CID naming this hash function with the digest SHA2-256(B); and
+	// after all of them, per entry, a genuine sha2-256 ad whose PreviousID is the forged CID
+	Forge   []string `json:"forge,omitempty"`
+	Trusted bool     `json:"trusted,omitempty"` // the destination link system has TrustedStorage = true
+	Pre     []PreJ   `json:"pre,omitempty"`
+	Syncs   []SyncJ  `json:"syncs"`
+}
+
+// hash functions a forged CID may name (digest length 32)
+var forgeCodes = map[string]uint64{
+	"sha2-512/32":  multihash.SHA2_512,
+	"sha2-512-256": 0x1015,
+	"sha3-256":     multihash.SHA3_256,
+	"blake2b-256":  multihash.BLAKE2B_MIN + 31,
+	"blake3":       multihash.BLAKE3,
+	"dbl-sha2-256": multihash.DBL_SHA2_256,
+	"identity":     multihash.IDENTITY,
 }
 
 var hashKinds = map[string][2]int64{
@@ -92,7 +110,7 @@ var (
 )
 
 func getWorld(sc Scn) *builtWorld {
-	key := fmt.Sprintf("%s|%d|%d|%d|%v|%v", sc.Hash, sc.Ads, sc.Chunk, sc.Raw, sc.BigRaw, sc.BigNode)
+	key := fmt.Sprintf("%s|%d|%d|%d|%v|%v|%v", sc.Hash, sc.Ads, sc.Chunk, sc.Raw, sc.BigRaw, sc.BigNode, sc.Forge)
 	if bw, ok := worlds[key]; ok {
 		return bw
 	}
@@ -118,6 +136,19 @@ func getWorld(sc Scn) *builtWorld {
 	}
 	for _, size := range sc.BigNode {
 		w.AddPadded(size)
+	}
+	var forged []cid.Cid
+	for i, name := range sc.Forge {
+		code, ok := forgeCodes[name]
+		if !ok {
+			panic("forge " + name)
+		}
+		body := w.AdBytes(w.CidOf(sc.Ads), fmt.Sprintf("%s-%d", name, i))
+		d := sha256.Sum256(body)
+		forged = append(forged, w.AddForged(body, cid.DagJSON, code, d[:]))
+	}
+	for _, f := range forged {
+		w.AddAd(f, cid.Undef)
 	}
 	bw := &builtWorld{w: w, srv: syncdrv.NewServer(w, pubKey)}
 	worlds[key] = bw
@@ -196,7 +227,7 @@ func runScn(c *vlib.Ctx, sc Scn, verbose bool) {
 	sc.Kind = "fetch"
 	bw := getWorld(sc)
 	w, srv := bw.w, bw.srv
-	sub := syncdrv.NewSub("nominate")
+	sub := syncdrv.NewSubTrusted("nominate", sc.Trusted)
 	corruptPre := map[string][]byte{}
 	var initial [][2]int
 	for _, p := range sc.Pre {
@@ -241,7 +272,7 @@ func runScn(c *vlib.Ctx, sc Scn, verbose bool) {
 				default:
 					a.content = 0
 					for _, b := range w.Blocks {
-						if bytes.Equal(b.Raw, body) {
+						if !b.Forged && bytes.Equal(b.Raw, body) {
 							a.content = b.Rank
 						}
 					}
@@ -285,6 +316,15 @@ func runScn(c *vlib.Ctx, sc Scn, verbose bool) {
 			}
 			panic("sync type " + sy.T)
 		})
+		if errors.Is(err, syncdrv.ErrCallTimeout) {
+			// the sync neither returned nor honoured its context: reported, and the scenario is
+			// abandoned (the subscriber may be stuck inside the call; it is not closed)
+			srv.Reset(nil, nil)
+			failOnce(c, "sync-timeout", fmt.Sprintf("sync-does-not-return:%s:%s", sc.Hash, faultSig(sc)),
+				fmt.Sprintf("sync %d did not return within %v (its context expired after 20 s)", len(obs), syncdrv.CallBound), sc)
+			c.Eval()
+			return
+		}
 		so.ok = err == nil && pan == ""
 		so.panic = pan
 		if err != nil {
@@ -499,6 +539,6 @@ func main() {
 		return
 	}
 	c.Res.Exhaustive = false
-	c.Res.Rule = "advertisement chains of length 1..4 (sha2-256) and 3 (sha2-256 truncated to 16 / 20, sha2-512, blake2b-256, identity), entries chains of length 2: at every request position of the sync, unsegmented and with segment size 1 / 2: 16 (quick) single-bit flips spread over the body, truncation at sampled lengths (every length for the entry chunks), 1 / 3 / 100 appended bytes, the empty body, a 4 MiB body, blocks whose genuine size is exactly 4 MiB - 1 / 4 MiB / 4 MiB + 1 (raw-codec and dag-json) served exactly, with 1 / 4096 appended bytes and cut by one byte, the body of every other block, status 404 / 500 / 204, a 200 answer cut in mid-body (full Content-Length, k bytes, connection closed; k = 0, 1, half, len-1) followed by good answers to any repeated request and by a clean second sync, on dag-json chains and on raw-codec leaf blocks; two faults in one sync; pre-stored sound and corrupt entries; sequences of failing and succeeding syncs on one subscriber. non-trivial = a fault that was actually delivered"
+	c.Res.Rule = "advertisement chains of length 1..4 (sha2-256) and 3 (sha2-256 truncated to 16 / 20, sha2-512, blake2b-256, identity), entries chains of length 2: at every request position of the sync, unsegmented and with segment size 1 / 2: 16 (quick) single-bit flips spread over the body, truncation at sampled lengths (every length for the entry chunks), 1 / 3 / 100 appended bytes, the empty body, a 4 MiB body, blocks whose genuine size is exactly 4 MiB - 1 / 4 MiB / 4 MiB + 1 (raw-codec and dag-json) served exactly, with 1 / 4096 appended bytes and cut by one byte, the body of every other block, status 404 / 500 / 204, a 200 answer cut in mid-body (full Content-Length, k bytes, connection closed; k = 0, 1, half, len-1) followed by good answers to any repeated request and by a clean second sync, on dag-json chains and on raw-codec leaf blocks; the same lie patterns with the destination link system's TrustedStorage = true; chains mixing hash functions: a sha2-256 advertisement linking a FORGED CID that names sha2-512/32, sha2-512-256, sha3-256, blake2b-256, blake3, dbl-sha2-256 or a 32-byte identity multihash with the digest SHA2-256(body), within one walk, across syncs of one subscriber, and with the forged CID fetched first; two faults in one sync; pre-stored sound and corrupt entries; sequences of failing and succeeding syncs on one subscriber. non-trivial = a fault that was actually delivered"
 	gen(c)
 }
